@@ -105,6 +105,31 @@ class PredicatePlan(Plan):
         return progs, exhaustive, rule
 
 
+class SqlPlan(Plan):
+    nontrivial_rule = "the tree has at least two operation kinds and the query returned rows"
+    trusted_base = COMMON_TB + [
+        "the SQL list semantics and SQLite-acceptance judgement of lean/DafRel/Model/Sql.lean are MODELLED, "
+        "not verified: they are validated against SQLite 3.40 on every generated query (both scan orders)",
+        "SQLAlchemy 2.0.52 rendering of the expression objects the engine builds",
+    ]
+    assumptions = COMMON_ASSUME + [
+        "results are compared only where determinate (every OFFSET/LIMIT over a total order); multiset "
+        "comparison unless the outermost level carries a total sort",
+        "join operands share key columns only (shared non-key columns have no defined join semantics)",
+    ]
+
+    def __init__(self, quick=500, thorough=12000, sorts=1.0):
+        self.quick, self.thorough, self.sorts = quick, thorough, sorts
+
+    def programs(self, tier, seed):
+        n = _n(tier, self.quick, self.thorough, self.thorough // 4)
+        progs = [gen.prog_sql(seed * 1000003 + i, 4 + (i % 8), sorts=self.sorts).text() for i in range(n)]
+        rule = (f"{n} random SQL-engine programs (2-3 tables of 0-5 rows, 4-11 factory calls over the six unary "
+                "operations, join with/without predicate, chain), each compiled and run on SQLite under both "
+                "physical scan orders")
+        return progs, False, rule
+
+
 PLANS: dict[str, Plan] = {
     "C01": IterationPlan(eager=True),
     "C04": CommutePlan(),
@@ -113,4 +138,7 @@ PLANS: dict[str, Plan] = {
     "C12": PredicatePlan(with_sql=True),
     "C13": PredicatePlan(),
     "C18": IterationPlan(eager=False, quick=1500),
+    "C02": SqlPlan(quick=500),
+    "C08": SqlPlan(quick=400),
+    "C11": SqlPlan(quick=500),
 }
